@@ -74,4 +74,84 @@ def shr (a k : Int) : Int := ((a.toNat >>> k.toNat : Nat) : Int)
 /-- Python `x & -x` for `x > 0`: the lowest set bit -/
 def lowbit (x : Int) : Int := ((x.toNat - (x.toNat &&& (x.toNat - 1)) : Nat) : Int)
 
+/-! --- T2: iterators (`iter` / `islice`), loops that may raise, `reduce`, `max` of a list, count dictionaries.
+    Every definition below is compared with CPython in `harness/prelude_check.py` (ops `t2_*` of the driver). -/
+
+/-- a Python iterator over a list: the items not yet consumed -/
+abbrev Iter (α : Type) := List α
+
+/-- `iter(xs)` -/
+def iter {α : Type} (xs : List α) : Iter α := xs
+
+/-- `islice(it, k)` consumed completely at once (`tuple(islice(it, k))`, `reduce(f, islice(it, k))`, `sum(islice(it, k), …)`):
+    the items taken and the advanced iterator; a negative `k` raises `ValueError` (`none`) -/
+def islice {α : Type} (it : Iter α) (k : Int) : Option (List α × Iter α) :=
+  if k < 0 then none else some (it.take k.toNat, it.drop k.toNat)
+
+/-- `while test: body` with a declared bound on the number of test evaluations.  `step` is one round: evaluate the test
+    (which may change the state: walrus, iterator), and if it holds run the body; it answers whether the loop goes on and
+    the new state, or `none` when Python raises.  `none` also when the fuel runs out – tie theorems prove that this does
+    not happen on the domain they state. -/
+def whileFuel {σ : Type} (step : σ → Option (Bool × σ)) : Nat → σ → Option σ
+  | 0, _ => none
+  | f + 1, s => (step s).bind (fun r => if r.1 then whileFuel step f r.2 else some r.2)
+
+/-- a `for` loop whose body may raise -/
+def foldlOpt {σ α : Type} (f : σ → α → Option σ) : σ → List α → Option σ
+  | s, [] => some s
+  | s, x :: xs => (f s x).bind (fun s' => foldlOpt f s' xs)
+
+/-- `[f(x) for x in xs]` where `f` may raise -/
+def mapOpt {α β : Type} (f : α → Option β) : List α → Option (List β)
+  | [] => some []
+  | x :: xs => (f x).bind (fun y => (mapOpt f xs).bind (fun ys => some (y :: ys)))
+
+/-- `[f(x) for x in xs]` where `f` may raise and consumes shared iterators (the state `σ`) -/
+def mapAccumOpt {σ α β : Type} (f : σ → α → Option (β × σ)) : σ → List α → Option (List β × σ)
+  | s, [] => some ([], s)
+  | s, x :: xs => (f s x).bind (fun r => (mapAccumOpt f r.2 xs).bind (fun rs => some (r.1 :: rs.1, rs.2)))
+
+/-- `functools.reduce(f, xs)` without initial value: `TypeError` (`none`) on an empty iterable -/
+def reduce1 {α : Type} (f : α → α → α) : List α → Option α
+  | [] => none
+  | x :: xs => some (xs.foldl f x)
+
+/-- `max(xs)` / `min(xs)` of a list of ints: `ValueError` (`none`) when empty -/
+def maxList : List Int → Option Int
+  | [] => none
+  | x :: xs => some (xs.foldl max x)
+def minList : List Int → Option Int
+  | [] => none
+  | x :: xs => some (xs.foldl min x)
+
+/-- `sum(xss, start=[])` for a list of lists -/
+def sumLists {α : Type} (xss : List (List α)) : List α := xss.foldl (· ++ ·) []
+
+/-- a `dict` as an insertion-ordered association list without duplicate keys -/
+abbrev Dict (κ ν : Type) := List (κ × ν)
+/-- a `collections.Counter` with int counts -/
+abbrev Counter (κ : Type) := List (κ × Int)
+
+/-- `Counter(d)` for a dict `d`: same entries, same order -/
+def counterOfDict {κ : Type} (d : Dict κ Int) : Counter κ := d
+/-- `dict(c)` -/
+def dictOfCounter {κ : Type} (c : Counter κ) : Dict κ Int := c
+/-- `d.items()` in iteration (= insertion) order -/
+def dictItems {κ ν : Type} (d : Dict κ ν) : List (κ × ν) := d
+
+/-- `c[k]` on a Counter: 0 for a missing key (and the key is NOT inserted) -/
+def counterGet {κ : Type} [BEq κ] : Counter κ → κ → Int
+  | [], _ => 0
+  | (k', v) :: rest, k => if k' == k then v else counterGet rest k
+
+/-- `d[k] = v`: an existing key keeps its position, a new key is appended -/
+def dictSet {κ ν : Type} [BEq κ] : Dict κ ν → κ → ν → Dict κ ν
+  | [], k, v => [(k, v)]
+  | (k', v') :: rest, k, v => if k' == k then (k', v) :: rest else (k', v') :: dictSet rest k v
+
+/-- `"{0:b}".format(n)`: binary digits without prefix -/
+def formatB (n : Int) : Str :=
+  if n < 0 then '-' :: (binDigits n.natAbs).map digitChar else (binDigits n.toNat).map digitChar
+-- --- end T2
+
 end OQ.Py
